@@ -67,7 +67,7 @@ def main(tier):
                       "behaviour is undocumented and surprising are kept out of the generator (see excluded_constructs)"]
     ev.cov["excluded_constructs"] = ["copying a Vector and then mutating elements through the copy (element handles are shared)", "size_t arithmetic (size() is wrapped in int())",
                                      "Map operator[] on a missing key", "assigning to a function parameter other than in the dedicated mut* functions (const-ness of temporaries passed as arguments is undocumented)", "growing a vector inside a ranged-for (iterator invalidation, recorded as a known finding under C12)", "try/catch (C10)", "eval()/use() (C04, C19)", "copying class instances"]
-    n = 5000 if tier == "quick" else 400000
+    n = 5000 if tier == "quick" else 70000
     failures = hyp.run("c03", ev, tier, n)
     confirmed = hyp.confirm("c03", failures, PID)
     for p, what in confirmed:
